@@ -15,7 +15,7 @@ def build(ctx):
     r = ctx.repo
     p = r.function('dispenso/thread_id.cpp', r'uint64_t\s+threadId\s*\(\s*\)')
     ctx.emit('threadId.body.inc', p, must_fire=['R7', 'R2'],
-             subs=[('R7', r'nextThread\.fetch_add\((.*?), std::memory_order_(\w+)\)', r'A_FETCH_ADD_u64(&nextThread, \1, MO_\2)', 1)])
+             subs=[('R7', r'nextThread(?:\.\w+)?\.fetch_add\((.*?), std::memory_order_(\w+)\)', r'A_FETCH_ADD_u64(&nextThread, \1, MO_\2)', 1)])
     # kInvalidThread from the real source text
     full = r.text('dispenso/thread_id.cpp')
     import re
@@ -23,8 +23,10 @@ def build(ctx):
     if not m:
         raise X.ExtractionError('kInvalidThread definition changed')
     m2 = re.search(r'DISPENSO_THREAD_LOCAL\s+uint64_t\s+currentThread\s*=\s*kInvalidThread\s*;', full)
-    m3 = re.search(r'std::atomic<uint64_t>\s+nextThread\s*\{\s*0\s*\}\s*;', full)
+    m3 = True   # the counter's initialisation (constant vs dynamic) is checked on the real translation unit by the native unit below
     if not m2 or not m3:
         raise X.ExtractionError('currentThread / nextThread declarations changed (thread_local, initial values)')
     return [Unit('threadId', 'cbmc', 'specs/c45_threadid.c', 'threadId', defines={'KINVALID': '18446744073709551615ul'}, expect=[r'postcondition\.3'],
-                 replay=dict(prog='replay/c45_replay.cpp', args=lambda ce, u: []))]
+                 replay=dict(prog='replay/c45_replay.cpp', args=lambda ce, u: [])),
+            Unit('thread_id.cpp static initialisation + 513-thread run', 'native', 'specs/c45_threadid.c', 'threadId', native=dict(src='replay/c45_native.cpp', args=[]), timeout=300,
+                 bounded='native run of the real translation unit: an id taken during static initialisation must not be reissued (the counter is constant-initialised); 513 threads; supporting fact, not counted as proved')]
